@@ -32,13 +32,17 @@ import (
 	"verif/harness/internal/ev"
 )
 
-const c30Rule = "sessions of 2..10 header lists (1..12 fields; names/values from a small dictionary so that dynamic-table hits occur, plus random octets, empty and long values up to 6000 octets, 15% never-index) interleaved with 0..3 announce/limit table-size operations (sizes 0..8192, many near entry sizes). One evaluation = one session. non-trivial: at least one eviction happened or a size update was emitted between two lists; distinct by the full operation list"
+const c30Rule = "sessions of 2..10 header lists (1..12 fields; names/values from a small dictionary so that dynamic-table hits occur, plus random octets, empty and long values up to 6000 octets, 15% never-index; for 1 list in 5 the consumer disables emission from the emit callback after 1..4 fields, as readMetaFrame does, and the following lists reuse the entries inserted meanwhile) interleaved with 0..3 announce/limit table-size operations (sizes 0..8192, many near entry sizes). One evaluation = one session. non-trivial: at least one eviction happened or a size update was emitted between two lists; distinct by the full operation list"
 
 type c30Op struct {
 	Kind   string `json:"op"` // "block", "announce", "limit"
 	V      uint32 `json:"v,omitempty"`
 	Fields []hf   `json:"fields,omitempty"`
 	Cuts   []int  `json:"cuts,omitempty"`
+	// OffAfter k >= 1: the consumer's emit callback calls Decoder.SetEmitEnabled(false) after the k-th field
+	// of this list (what Framer.readMetaFrame does after an invalid field); emission is enabled again
+	// before the next list. The dropped fields must still update the decoder's table.
+	OffAfter int `json:"emit_off_after,omitempty"`
 }
 
 type bytesSink struct{ b []byte }
@@ -57,8 +61,13 @@ func c30Run(tb ev.TB, rec *ev.Rec, ops []c30Op) {
 	sink := &bytesSink{}
 	enc := bhpack.NewEncoder(sink)
 	var got []hf
-	dec := bhpack.NewDecoder(4096, func(f bhpack.HeaderField) error {
+	var dec *bhpack.Decoder
+	offAfter := 0
+	dec = bhpack.NewDecoder(4096, func(f bhpack.HeaderField) error {
 		got = append(got, hf{f.Name, f.Value, f.Sensitive})
+		if len(got) == offAfter {
+			dec.SetEmitEnabled(false)
+		}
 		return nil
 	})
 	ref := newRefDec(4096)
@@ -154,8 +163,15 @@ func c30Run(tb ev.TB, rec *ev.Rec, ops []c30Op) {
 
 		// in-tree decoder
 		got = nil
+		offAfter = op.OffAfter
+		want := op.Fields
+		if op.OffAfter > 0 && op.OffAfter < len(want) {
+			want = want[:op.OffAfter]
+			classes["emit-disabled-mid-list"] = true
+		}
 		var derr error
 		perr = ev.Try(func() {
+			dec.SetEmitEnabled(true)
 			for _, ch := range splitAt(block, op.Cuts) {
 				if _, derr = dec.Write(append([]byte(nil), ch...)); derr != nil {
 					return
@@ -171,14 +187,14 @@ func c30Run(tb ev.TB, rec *ev.Rec, ops []c30Op) {
 			fail("decode-error", "op %d: Decoder rejects encoder output %x (cuts %v): %v", opi, block, op.Cuts, derr)
 			return
 		}
-		if !hfListEq(got, op.Fields) {
+		if !hfListEq(got, want) {
 			key := "roundtrip"
 			for i := range got {
-				if i < len(op.Fields) && got[i].Name == op.Fields[i].Name && got[i].Value == op.Fields[i].Value && got[i].Sensitive != op.Fields[i].Sensitive {
+				if i < len(want) && got[i].Name == want[i].Name && got[i].Value == want[i].Value && got[i].Sensitive != want[i].Sensitive {
 					key = "roundtrip-sensitive"
 				}
 			}
-			fail(key, "op %d: decoded %v, written %v (block %x, cuts %v)", opi, got, op.Fields, block, op.Cuts)
+			fail(key, "op %d: decoded %v, written %v (emission disabled by the consumer after %d fields; block %x, cuts %v)", opi, got, want, op.OffAfter, block, op.Cuts)
 			return
 		}
 
@@ -323,6 +339,9 @@ func genC30Ops(rt *rapid.T) []c30Op {
 			}
 			op.Fields = append(op.Fields, genC30Field(rt))
 		}
+		if rapid.IntRange(0, 4).Draw(rt, "emit-off") == 0 {
+			op.OffAfter = rapid.IntRange(1, 4).Draw(rt, "emit-off-after")
+		}
 		if rapid.Bool().Draw(rt, "split") {
 			op.Cuts = rapid.SliceOfN(rapid.IntRange(0, 64), 1, 2).Draw(rt, "cuts")
 		}
@@ -357,6 +376,15 @@ func TestC30(t *testing.T) {
 		{Kind: "limit", V: 35},
 		{Kind: "block", Fields: []hf{{"x-c", "3", false}, {"x-a", "1", true}}},
 	})
+	// readMetaFrame scenario: emission switched off after an invalid field, new entries follow, the next list uses them
+	if os.Getenv("VERIF_HPACK_NOSWEEP") != "" { // development aid: show that the generated part finds it on its own
+		goto generated
+	}
+	c30Run(t, rec, []c30Op{
+		{Kind: "block", OffAfter: 1, Fields: []hf{{"Bad-Name", "x", false}, {"x-new", "value-1", false}, {"cookie", "a=b", false}, {"x-plain", "p", true}}},
+		{Kind: "block", Cuts: []int{1, 3}, Fields: []hf{{"x-new", "value-1", false}, {"cookie", "a=b", false}, {"x-new", "other", false}, {"Bad-Name", "x", false}}},
+	})
+generated:
 	rapid.Check(t, func(rt *rapid.T) {
 		ops := genC30Ops(rt)
 		nops := 0
